@@ -23,8 +23,10 @@
  *                               instance type_instance implements type_implements method_at_offset
  *                               type_method_at_offset implements_method_at_offset type_implements_method_at_offset
  *   sq <E> <Type> <class> <m>   same lookup on a built-in type, answer relative to the raw-record oracle
- *   oq <E> <Type> <class> <m>   the built-in type OBJECT itself as receiver (E in I P M R, or O = type_of); oracle = Type's
- *                               record; ",v=1" when nothing had looked at that object before in this process
+ *   oq <E> <Type> <class> <m> [-]  the built-in type OBJECT itself as receiver (E in I P M R, or O = type_of); oracle = Type's
+ *                               record; ",v=1" when nothing had looked at that object before in this process ("-": not reported)
+ *   aq <E> <class> <m>          lookup on the run-time type with an ALIAS of the class (another class object of that name)
+ *   fb <class> <m>              public function that has a default when the member is not declared (see exec_api)
  *   api <class> <m>             call the public function that dispatches to member m (len, push, ...)
  *   cast <x|s:Type> <self|twin|name>
  *   tname | tsize               c_str(T) / size(T)
@@ -74,21 +76,82 @@ enum { K_Doc, K_Help, K_Cast, K_Size, K_Alloc, K_New, K_Copy, K_Assign, K_Swap, 
        K_Push, K_Concat, K_Get, K_Sort, K_Resize, K_C_Str, K_C_Int, K_C_Float, K_Stream, K_Pointer, K_Call,
        K_Format, K_Show, K_Current, K_Start, K_Lock, K_Mark };
 
+
+/* ---- user-declared static types and classes (Cello / CelloEmpty / Instance macros, header-less instances) ----
+ * UCls, UCl: made-up classes (one name a prefix of the other); UT0: no instances; UT1: user classes + built-in ones,
+ * one instance with every member empty; UTAll: 29 built-in classes in reverse order with mixed empty members (Cast is
+ * left out: a type that overrides cast() is outside the default cast rule), then a user class.  Nothing ever calls
+ * these members: the matrix only compares pointers with the raw record. */
+static void ut_f(void) { }
+#define UF ((void*)ut_f)
+struct UCls { void (*f)(void); void (*g)(void); };
+struct UCl { void (*f)(void); };
+struct UT0 { char c; };
+struct UT1 { int64_t a; };
+struct UTAll { int64_t a, b; };
+static var UCls = Cello(UCls);
+static var UCl = Cello(UCl);
+static var UT0 = CelloEmpty(UT0);
+static var UT1 = Cello(UT1,
+  Instance(UCls, UF, NULL), Instance(Cmp, UF), Instance(Len, NULL), Instance(UCl, UF), Instance(Show, NULL, UF));
+static var UTAll = Cello(UTAll,
+  Instance(Mark, UF),
+  Instance(Lock, UF, UF, NULL),
+  Instance(Start, NULL, UF, UF, NULL),
+  Instance(Current, UF),
+  Instance(Show, UF, UF),
+  Instance(Format, NULL, UF),
+  Instance(Call, UF),
+  Instance(Pointer, UF, UF),
+  Instance(Stream, NULL, UF, UF, NULL, UF, UF, NULL, UF),
+  Instance(C_Float, UF),
+  Instance(C_Int, UF),
+  Instance(C_Str, NULL),
+  Instance(Resize, UF),
+  Instance(Sort, UF),
+  Instance(Get, NULL, UF, UF, NULL, UF, UF),
+  Instance(Concat, UF, NULL),
+  Instance(Push, UF, UF, NULL, UF),
+  Instance(Iter, NULL, UF, UF, NULL, UF),
+  Instance(Len, UF),
+  Instance(Hash, UF),
+  Instance(Cmp, NULL),
+  Instance(Swap, UF),
+  Instance(Assign, UF),
+  Instance(Copy, NULL),
+  Instance(New, UF, NULL),
+  Instance(Alloc, UF, UF),
+  Instance(Size, NULL),
+  Instance(Help, UF),
+  Instance(Doc, NULL, UF, UF, NULL, UF, UF),
+  Instance(UCls, NULL, UF));
+#undef UF
+
 struct TypeInfo { const char* name; var* t; };
 #define T(N) { #N, &N }
 static struct TypeInfo TYPES[] = {
   T(Type), T(Tuple), T(Ref), T(Box), T(Int), T(Float), T(String), T(Tree), T(List), T(Array), T(Table), T(Range),
   T(Slice), T(Zip), T(Filter), T(Map), T(Terminal), T(_), T(File), T(Mutex), T(Thread), T(Process), T(Function),
-  T(Exception), T(GC),
+  T(Exception),
+#ifndef CELLO_NGC
+  T(GC),
+#endif
   T(Doc), T(Help), T(Cast), T(Size), T(Alloc), T(New), T(Copy), T(Assign), T(Swap), T(Cmp), T(Hash), T(Len),
   T(Iter), T(Push), T(Concat), T(Get), T(Sort), T(Resize), T(C_Str), T(C_Int), T(C_Float), T(Stream), T(Pointer),
   T(Call), T(Format), T(Show), T(Current), T(Start), T(Lock), T(Mark),
   T(IOError), T(KeyError), T(BusyError), T(TypeError), T(ValueError), T(ClassError), T(FormatError),
   T(ResourceError), T(OutOfMemoryError), T(IndexOutOfBoundsError), T(SegmentationError), T(ProgramAbortedError),
-  T(DivisionByZeroError), T(IllegalInstructionError), T(ProgramInterruptedError), T(ProgramTerminationError)
+  T(DivisionByZeroError), T(IllegalInstructionError), T(ProgramInterruptedError), T(ProgramTerminationError),
+  /* user-declared static types and classes (below): looked up like the built-in ones, same raw-record oracle */
+  T(UCls), T(UCl), T(UT0), T(UT1), T(UTAll)
 };
 #undef T
 #define NTYPES ((int)(sizeof TYPES / sizeof TYPES[0]))
+#ifndef CELLO_NGC
+#define NTYPES_EXPECTED 76
+#else
+#define NTYPES_EXPECTED 75
+#endif
 
 /* ---- oracle: raw record scan by class name, public layout only, no Cello call ------------------- */
 #define MAXTRIP 64
@@ -118,7 +181,7 @@ static var fab(var type, size_t sz) {
   return header_init(b, type, AllocStack);       /* header_init only fills the header */
 }
 static void snapshot(void) {
-  if (NTYPES isnt 71) { bug("type table must list 71 objects"); }
+  if (NTYPES isnt NTYPES_EXPECTED) { bug("type table must list 71 built-in (70 without collector) + 5 user objects"); }
   for (int i = 0; i < NTYPES; i++) {
     var T = *TYPES[i].t;
     struct Type* t = rec_triples(T); int n = 0;
@@ -474,13 +537,17 @@ static var* ROOTS;                           /* locals of case_child: visible to
 #define RT   (ROOTS[0])
 #define TWIN (ROOTS[1])
 static var X = NULL;                         /* object whose header says "my type is RT" */
+static var X2 = NULL;                        /* a second one (binary operations) */
+static var TERM_ONLY[1];                     /* items of an empty argument tuple */
 static var* g_bottom;
 static bool gc_ready = false;
 
 static void need_cello(void) {
   if (gc_ready) { return; }
   gc_ready = true;
+#ifndef CELLO_NGC
   new_raw(GC, $R(g_bottom));                 /* what the `main` macro of Cello.h does */
+#endif
 }
 
 static var fab_int(int64_t v) { struct Int* i = fab(Int, sizeof *i); i->val = v; return i; }
@@ -562,7 +629,7 @@ static bool make_rt(char* err, size_t cap) {
   var volatile ex = NULL;
   try { RT = new_with(Type, args); TWIN = new_with(Type, targs); } catch (e) { ex = e; }
   if (ex) { snprintf(err, cap, "exc %s", c_str(ex)); return false; }
-  X = fab(RT, 256);
+  X = fab(RT, 256); X2 = fab(RT, 256); TERM_ONLY[0] = Terminal;
   rt_made = true;
   return true;
 }
@@ -598,104 +665,6 @@ static void ptr_tok(var r, char* out, size_t cap) {
   for (int i = 0; i < ninst; i++) { if (insts[i].obj is r) { snprintf(out, cap, "#%d", i); return; } }
   for (int i = 0; i < nold; i++) { if (old_objs[i] is r) { snprintf(out, cap, "old"); return; } }
   snprintf(out, cap, "o");
-}
-
-/* q / sq / cast / tname: usable from any thread (no shared mutable state, answer into out) */
-static void exec_q(char** w, int n, char* out, size_t cap) {
-  int calls0 = trap_calls, stale0 = stale_hits;
-  size_t len0 = 0;
-  out[0] = 0;
-  if (strcmp(w[0], "q") is 0 and n >= 4) {
-    struct Target t; int m = atoi(w[3]);
-    if (not resolve(w[2], &t) or m < 0 or m >= t.nmem) { bug("q: bad class or member"); }
-    const char* mn = t.k >= 0 ? CLS[t.k].mn[m] : "member";
-    struct Res r = entry(w[1][0], X, RT, t.obj, m, mn, false);
-    if (r.kind is 2) { snprintf(out, cap, "%s", strcmp(r.exc, "ClassError") is 0 ? "C" : r.exc); }
-    else if (r.kind is 1) { snprintf(out, cap, "%d", r.b); }
-    else { ptr_tok(r.ptr, out, cap); }
-  }
-  else if (strcmp(w[0], "sq") is 0 and n >= 5) {
-    int ti = type_index(w[2]); struct Target t; int m = atoi(w[4]);
-    if (ti < 0 or not resolve(w[3], &t) or m < 0 or m >= t.nmem) { bug("sq: bad type, class or member"); }
-    const char* cname = t.k >= 0 ? CLS[t.k].name : (t.fi >= 0 ? fillers[t.fi].name : w[3]);
-    var T = *TYPES[ti].t;
-    var oinst = ora_scan(T, cname);
-    int d = oinst ? 1 : 0, mm = (oinst and ((var*)oinst)[m] isnt NULL) ? 1 : 0;
-    const char* mn = t.k >= 0 ? CLS[t.k].mn[m] : "member";
-    struct Res r = entry(w[1][0], SOBJ[ti], T, t.obj, m, mn, false);
-    char c[48];
-    if (r.kind is 2) { snprintf(c, sizeof c, "%s", strcmp(r.exc, "ClassError") is 0 ? "C" : r.exc); }
-    else if (r.kind is 1) { snprintf(c, sizeof c, "%d", r.b); }
-    else { snprintf(c, sizeof c, "%s", r.ptr is NULL ? "n" : (r.ptr is oinst ? "s" : "o")); }
-    snprintf(out, cap, "%s,d=%d,m=%d", c, d, mm);
-  }
-  else if (strcmp(w[0], "oq") is 0 and n >= 5) {
-    /* the static type object itself as the receiver (an object of type Type): ",v=1" = its header's type field was
-     * still unset, i.e. nothing had looked at this object before */
-    int ti = type_index(w[2]); struct Target t; int m = atoi(w[4]);
-    if (ti < 0 or not resolve(w[3], &t) or m < 0 or m >= t.nmem) { bug("oq: bad type, class or member"); }
-    const char* cname = t.k >= 0 ? CLS[t.k].name : (t.fi >= 0 ? fillers[t.fi].name : w[3]);
-    var self = *TYPES[ti].t;
-    int virgin = ((struct Header*)((char*)self - sizeof(struct Header)))->type is NULL;
-    var oinst = ora_scan(Type, cname);
-    int d = oinst ? 1 : 0, mm = (oinst and ((var*)oinst)[m] isnt NULL) ? 1 : 0;
-    const char* mn = t.k >= 0 ? CLS[t.k].mn[m] : "member";
-    char E = w[1][0];
-    if (E isnt 'I' and E isnt 'P' and E isnt 'M' and E isnt 'R' and E isnt 'O') { bug("oq: entry point takes a type, not an object"); }
-    char c[48];
-    if (E is 'O') {
-      var volatile r = NULL; var volatile ex = NULL;
-      try { r = type_of(self); } catch (e) { ex = e; }
-      if (ex) { snprintf(c, sizeof c, "%s", c_str(ex)); } else { snprintf(c, sizeof c, "%s", r is Type ? "s" : "o"); }
-    } else {
-      struct Res r = entry(E, self, Type, t.obj, m, mn, false);
-      if (r.kind is 2) { snprintf(c, sizeof c, "%s", strcmp(r.exc, "ClassError") is 0 ? "C" : r.exc); }
-      else if (r.kind is 1) { snprintf(c, sizeof c, "%d", r.b); }
-      else { snprintf(c, sizeof c, "%s", r.ptr is NULL ? "n" : (r.ptr is oinst ? "s" : "o")); }
-    }
-    snprintf(out, cap, "%s,d=%d,m=%d,v=%d", c, d, mm, virgin);
-  }
-  else if (strcmp(w[0], "cast") is 0 and n >= 3) {
-    var obj; struct Target t;
-    if (strcmp(w[1], "x") is 0) { obj = X; }
-    else if (w[1][0] is 's' and w[1][1] is ':' and type_index(w[1] + 2) >= 0) { obj = SOBJ[type_index(w[1] + 2)]; }
-    else { bug("cast: object"); obj = NULL; }
-    if (not resolve(w[2], &t)) { bug("cast: target"); }
-    var volatile r = NULL; var volatile ex = NULL; int last0 = trap_last;
-    try { r = cast(obj, t.obj); } catch (e) { ex = e; }
-    if (ex) { snprintf(out, cap, "%s", strcmp(c_str(ex), "ValueError") is 0 ? "V" : c_str(ex)); }
-    else if (trap_calls is calls0 + 1 and trap_last is K_Cast * MAXMEM and r is obj) { snprintf(out, cap, "k"); calls0++; }
-    else { snprintf(out, cap, "%s", r is obj ? "s" : "o"); }
-    (void)last0;
-  }
-  else if (strcmp(w[0], "tname") is 0) {
-    var volatile ex = NULL; char* volatile s = NULL;
-    try { s = c_str(RT); } catch (e) { ex = e; }
-    if (ex) { snprintf(out, cap, "%s", c_str(ex)); } else { snprintf(out, cap, "name=%s", s); }
-  }
-  else { bug("unknown lookup op"); }
-  len0 = strlen(out);
-  if (trap_calls isnt calls0) { snprintf(out + len0, cap - len0, ",TRAP=%d", trap_calls - calls0); }
-  len0 = strlen(out);
-  if (stale_hits isnt stale0) { snprintf(out + len0, cap - len0, ",STALE=%d", stale_hits - stale0); }
-}
-
-static void op_q(char** w, int n) {
-  char out[128];
-  if (not rt_made and strcmp(w[0], "sq") isnt 0 and strcmp(w[0], "oq") isnt 0 and not (strcmp(w[0], "cast") is 0 and w[1][0] is 's')) { bug("lookup before mk"); }
-  need_cello();
-  exec_q(w, n, out, sizeof out);
-  int d = exc_depth();
-  if (d isnt 0) { printf("%s depth=%d\n", out, d); } else { printf("%s\n", out); }
-}
-
-static void op_tsize(void) {
-  if (not rt_made) { bug("tsize before mk"); }
-  int c0 = trap_calls, st0 = stale_hits; size_t volatile s = 0; var volatile ex = NULL;
-  try { s = size(RT); } catch (e) { ex = e; }
-  if (ex) { printf("%s\n", c_str(ex)); }
-  else if (stale_hits isnt st0) { printf("size=%zu traps=%d,STALE=%d\n", (size_t)s, trap_calls - c0, stale_hits - st0); }
-  else { printf("size=%zu traps=%d\n", (size_t)s, trap_calls - c0); }
 }
 
 static bool api_cmp(var a, var b) { return false; }
@@ -755,19 +724,188 @@ static void api_call(int id) {
     default: bug("api: member has no dispatching public function");
   }
 }
-static void op_api(char** w, int n) {
-  if (n < 3 or not rt_made) { bug("api: arguments"); }
+
+/* fb <class> <m>: public functions that dispatch to a member but have a DEFAULT when the type leaves it out
+ * (cmp, hash, assign, swap, copy, show_to, name, construct_with, destruct, alloc_raw, dealloc_raw, mark).
+ *   member declared            -> exactly that function must run, once:                        "k"
+ *   member not declared, safe  -> the default runs, no function of any declaration may run:    "f"  (any exception the
+ *                                 default raises is part of the default)
+ *   otherwise                  -> not executed:                                                "skip"
+ * "safe": the default of cmp / hash / assign / swap touches size(type) bytes of the object; X and X2 are 256 bytes. */
+static struct Inst* cur_inst(int k) {
+  for (int i = 0; i < ninst; i++) { if (insts[i].k is k) { return &insts[i]; } }
+  return NULL;
+}
+static bool cur_member(int k, int m) { struct Inst* ip = cur_inst(k); return ip and ((ip->mask >> m) & 1); }
+static int fb_absent_mode(int k, int m) {          /* 0 never, 1 always safe, 2 needs a safe size */
+  if (k is K_Cmp or k is K_Hash or k is K_Assign or k is K_Swap) { return 2; }
+  if (k is K_New or k is K_Mark or (k is K_Doc and m is 0)) { return 1; }
+  return 0;
+}
+static void fb_call(int id) {
+  switch (id) {
+    case K_Cmp * 8 + 0: cmp(X, X2); break;
+    case K_Hash * 8 + 0: hash(X); break;
+    case K_Assign * 8 + 0: assign(X, X2); break;
+    case K_Swap * 8 + 0: swap(X, X2); break;
+    case K_Copy * 8 + 0: copy(X); break;
+    case K_Show * 8 + 0: show_to(X, NULL, 0); break;
+    case K_Doc * 8 + 0: name(RT); break;
+    case K_New * 8 + 0: construct_with(X, fab_tuple(TERM_ONLY)); break;
+    case K_New * 8 + 1: destruct(X); break;
+    case K_Alloc * 8 + 0: alloc_raw(RT); break;
+    case K_Alloc * 8 + 1: dealloc_raw(X); break;
+    case K_Mark * 8 + 0: mark(X, NULL, NULL); break;
+    default: bug("fb: member has no public function with a default");
+  }
+}
+static void exec_api(char** w, int n, char* out, size_t cap) {
+  bool fb = w[0][0] is 'f';
+  if (n < 3 or not rt_made) { bug("api/fb: arguments"); }
   int k = class_index(w[1]); int m = atoi(w[2]);
-  if (k < 0 or m < 0 or m >= CLS[k].nmem) { bug("api: class/member"); }
+  if (k < 0 or m < 0 or m >= CLS[k].nmem) { bug("api/fb: class/member"); }
+  bool present = cur_member(k, m);
+  if (fb and not present) {
+    int mode = fb_absent_mode(k, m);
+    bool size_ok = rt_size >= 1 and rt_size <= 256 and not cur_member(K_Size, 0);
+    if (mode is 0 or (mode is 2 and not size_ok)) { snprintf(out, cap, "skip"); return; }
+  }
   int c0 = trap_calls, st0 = stale_hits; var volatile ex = NULL;
   trap_last = -1;
-  try { api_call(k * 8 + m); } catch (e) { ex = e; }
+  try { if (fb) { fb_call(k * 8 + m); } else { api_call(k * 8 + m); } } catch (e) { ex = e; }
+  if (fb and not present) {
+    if (trap_calls is c0) { snprintf(out, cap, "f"); }
+    else { snprintf(out, cap, "x,calls=%d,last=%d,STALE=%d", trap_calls - c0, trap_last, stale_hits - st0); }
+    return;
+  }
+  if (ex) { snprintf(out, cap, "%s", strcmp(c_str(ex), "ClassError") is 0 ? "C" : c_str(ex)); if (trap_calls isnt c0) { strcat(out, ",TRAP"); } }
+  else if (trap_calls is c0 + 1 and trap_last is k * MAXMEM + m and stale_hits is st0) { snprintf(out, cap, "k"); }
+  else { snprintf(out, cap, "x,calls=%d,last=%d,STALE=%d", trap_calls - c0, trap_last, stale_hits - st0); }
+}
+
+/* a class object that is not the class itself but carries its name (run-time type object, no instances) */
+static var alias_objs[NCLS + MAXFILL];
+static var alias_of(struct Target* t) {
+  int idx = t->k >= 0 ? t->k : NCLS + t->fi;
+  if (alias_objs[idx] is NULL) {
+    const char* nm = t->k >= 0 ? CLS[t->k].name : fillers[t->fi].name;
+    var items[3] = { fab_str(nm), fab_int(t->nmem * (int64_t)sizeof(var)), Terminal };
+    alias_objs[idx] = new_raw_with(Type, fab_tuple(items));
+  }
+  return alias_objs[idx];
+}
+
+/* q / sq / cast / tname: usable from any thread (no shared mutable state, answer into out) */
+static void exec_q(char** w, int n, char* out, size_t cap) {
+  int calls0 = trap_calls, stale0 = stale_hits;
+  size_t len0 = 0;
+  out[0] = 0;
+  if (strcmp(w[0], "q") is 0 and n >= 4) {
+    struct Target t; int m = atoi(w[3]);
+    if (not resolve(w[2], &t) or m < 0 or m >= t.nmem) { bug("q: bad class or member"); }
+    const char* mn = t.k >= 0 ? CLS[t.k].mn[m] : "member";
+    struct Res r = entry(w[1][0], X, RT, t.obj, m, mn, false);
+    if (r.kind is 2) { snprintf(out, cap, "%s", strcmp(r.exc, "ClassError") is 0 ? "C" : r.exc); }
+    else if (r.kind is 1) { snprintf(out, cap, "%d", r.b); }
+    else { ptr_tok(r.ptr, out, cap); }
+  }
+  else if (strcmp(w[0], "sq") is 0 and n >= 5) {
+    int ti = type_index(w[2]); struct Target t; int m = atoi(w[4]);
+    if (ti < 0 or not resolve(w[3], &t) or m < 0 or m >= t.nmem) { bug("sq: bad type, class or member"); }
+    const char* cname = t.k >= 0 ? CLS[t.k].name : (t.fi >= 0 ? fillers[t.fi].name : w[3]);
+    var T = *TYPES[ti].t;
+    var oinst = ora_scan(T, cname);
+    int d = oinst ? 1 : 0, mm = (oinst and ((var*)oinst)[m] isnt NULL) ? 1 : 0;
+    const char* mn = t.k >= 0 ? CLS[t.k].mn[m] : "member";
+    struct Res r = entry(w[1][0], SOBJ[ti], T, t.obj, m, mn, false);
+    char c[48];
+    if (r.kind is 2) { snprintf(c, sizeof c, "%s", strcmp(r.exc, "ClassError") is 0 ? "C" : r.exc); }
+    else if (r.kind is 1) { snprintf(c, sizeof c, "%d", r.b); }
+    else { snprintf(c, sizeof c, "%s", r.ptr is NULL ? "n" : (r.ptr is oinst ? "s" : "o")); }
+    snprintf(out, cap, "%s,d=%d,m=%d", c, d, mm);
+  }
+  else if (strcmp(w[0], "oq") is 0 and n >= 5) {
+    /* the static type object itself as the receiver (an object of type Type): ",v=1" = its header's type field was
+     * still unset, i.e. nothing had looked at this object before */
+    int ti = type_index(w[2]); struct Target t; int m = atoi(w[4]);
+    if (ti < 0 or not resolve(w[3], &t) or m < 0 or m >= t.nmem) { bug("oq: bad type, class or member"); }
+    const char* cname = t.k >= 0 ? CLS[t.k].name : (t.fi >= 0 ? fillers[t.fi].name : w[3]);
+    var self = *TYPES[ti].t;
+    int virgin = ((struct Header*)((char*)self - sizeof(struct Header)))->type is NULL;
+    var oinst = ora_scan(Type, cname);
+    int d = oinst ? 1 : 0, mm = (oinst and ((var*)oinst)[m] isnt NULL) ? 1 : 0;
+    const char* mn = t.k >= 0 ? CLS[t.k].mn[m] : "member";
+    char E = w[1][0];
+    if (E isnt 'I' and E isnt 'P' and E isnt 'M' and E isnt 'R' and E isnt 'O') { bug("oq: entry point takes a type, not an object"); }
+    char c[48];
+    if (E is 'O') {
+      var volatile r = NULL; var volatile ex = NULL;
+      try { r = type_of(self); } catch (e) { ex = e; }
+      if (ex) { snprintf(c, sizeof c, "%s", c_str(ex)); } else { snprintf(c, sizeof c, "%s", r is Type ? "s" : "o"); }
+    } else {
+      struct Res r = entry(E, self, Type, t.obj, m, mn, false);
+      if (r.kind is 2) { snprintf(c, sizeof c, "%s", strcmp(r.exc, "ClassError") is 0 ? "C" : r.exc); }
+      else if (r.kind is 1) { snprintf(c, sizeof c, "%d", r.b); }
+      else { snprintf(c, sizeof c, "%s", r.ptr is NULL ? "n" : (r.ptr is oinst ? "s" : "o")); }
+    }
+    if (n >= 6 and w[5][0] is '-') { snprintf(out, cap, "%s,d=%d,m=%d,v=-", c, d, mm); }      /* first touch not reported */
+    else { snprintf(out, cap, "%s,d=%d,m=%d,v=%d", c, d, mm, virgin); }
+  }
+  else if (strcmp(w[0], "cast") is 0 and n >= 3) {
+    var obj; struct Target t;
+    if (strcmp(w[1], "x") is 0) { obj = X; }
+    else if (strcmp(w[1], "rt") is 0) { obj = RT; }                 /* the run-time type object itself (an object of type Type) */
+    else if (w[1][0] is 's' and w[1][1] is ':' and type_index(w[1] + 2) >= 0) { obj = SOBJ[type_index(w[1] + 2)]; }
+    else if (w[1][0] is 'o' and w[1][1] is ':' and type_index(w[1] + 2) >= 0) { obj = *TYPES[type_index(w[1] + 2)].t; }   /* a static type object itself */
+    else { bug("cast: object"); obj = NULL; }
+    if (not resolve(w[2], &t)) { bug("cast: target"); }
+    var volatile r = NULL; var volatile ex = NULL; int last0 = trap_last;
+    try { r = cast(obj, t.obj); } catch (e) { ex = e; }
+    if (ex) { snprintf(out, cap, "%s", strcmp(c_str(ex), "ValueError") is 0 ? "V" : c_str(ex)); }
+    else if (trap_calls is calls0 + 1 and trap_last is K_Cast * MAXMEM and r is obj) { snprintf(out, cap, "k"); calls0++; }
+    else { snprintf(out, cap, "%s", r is obj ? "s" : "o"); }
+    (void)last0;
+  }
+  else if (strcmp(w[0], "aq") is 0 and n >= 4) {
+    /* lookup on the run-time type with an ALIAS of the class: another class object carrying the same name.  The answer
+     * is only required to be admissible; what matters is that later lookups with the real class are unaffected. */
+    struct Target t; int m = atoi(w[3]);
+    if (not resolve(w[2], &t) or (t.k < 0 and t.fi < 0) or m < 0 or m >= t.nmem) { bug("aq: bad class or member"); }
+    var alias = alias_of(&t);
+    struct Res r = entry(w[1][0], X, RT, alias, m, "member", false);
+    if (r.kind is 2) { snprintf(out, cap, "%s", strcmp(r.exc, "ClassError") is 0 ? "C" : r.exc); }
+    else if (r.kind is 1) { snprintf(out, cap, "%d", r.b); }
+    else { ptr_tok(r.ptr, out, cap); }
+  }
+  else if ((strcmp(w[0], "api") is 0 or strcmp(w[0], "fb") is 0) and n >= 3) { exec_api(w, n, out, cap); return; }
+  else if (strcmp(w[0], "tname") is 0) {
+    var volatile ex = NULL; char* volatile s = NULL;
+    try { s = c_str(RT); } catch (e) { ex = e; }
+    if (ex) { snprintf(out, cap, "%s", c_str(ex)); } else { snprintf(out, cap, "name=%s", s); }
+  }
+  else { bug("unknown lookup op"); }
+  len0 = strlen(out);
+  if (trap_calls isnt calls0) { snprintf(out + len0, cap - len0, ",TRAP=%d", trap_calls - calls0); }
+  len0 = strlen(out);
+  if (stale_hits isnt stale0) { snprintf(out + len0, cap - len0, ",STALE=%d", stale_hits - stale0); }
+}
+
+static void op_q(char** w, int n) {
+  char out[128];
+  if (not rt_made and strcmp(w[0], "sq") isnt 0 and strcmp(w[0], "oq") isnt 0 and not (strcmp(w[0], "cast") is 0 and w[1][0] is 's')) { bug("lookup before mk"); }
+  need_cello();
+  exec_q(w, n, out, sizeof out);
   int d = exc_depth();
-  char out[96];
-  if (ex) { snprintf(out, sizeof out, "%s", strcmp(c_str(ex), "ClassError") is 0 ? "C" : c_str(ex)); if (trap_calls isnt c0) { strcat(out, ",TRAP"); } }
-  else if (trap_calls is c0 + 1 and trap_last is k * MAXMEM + m and stale_hits is st0) { snprintf(out, sizeof out, "k"); }
-  else { snprintf(out, sizeof out, "x,calls=%d,last=%d,STALE=%d", trap_calls - c0, trap_last, stale_hits - st0); }
   if (d isnt 0) { printf("%s depth=%d\n", out, d); } else { printf("%s\n", out); }
+}
+
+static void op_tsize(void) {
+  if (not rt_made) { bug("tsize before mk"); }
+  int c0 = trap_calls, st0 = stale_hits; size_t volatile s = 0; var volatile ex = NULL;
+  try { s = size(RT); } catch (e) { ex = e; }
+  if (ex) { printf("%s\n", c_str(ex)); }
+  else if (stale_hits isnt st0) { printf("size=%zu traps=%d,STALE=%d\n", (size_t)s, trap_calls - c0, stale_hits - st0); }
+  else { printf("size=%zu traps=%d\n", (size_t)s, trap_calls - c0); }
 }
 
 /* ---- threads --------------------------------------------------------------------------------------- */
@@ -850,7 +988,7 @@ static void case_child(char** lines, int nlines) {
     else if (strcmp(op, "mk") is 0) { op_mk(); }
     else if (strcmp(op, "q") is 0 or strcmp(op, "sq") is 0 or strcmp(op, "oq") is 0 or strcmp(op, "cast") is 0 or strcmp(op, "tname") is 0) { op_q(w, n); }
     else if (strcmp(op, "tsize") is 0) { need_cello(); op_tsize(); }
-    else if (strcmp(op, "api") is 0) { need_cello(); op_api(w, n); }
+    else if (strcmp(op, "api") is 0 or strcmp(op, "fb") is 0 or strcmp(op, "aq") is 0) { op_q(w, n); }
     else if (strcmp(op, "tq") is 0) { op_tq(w, n); }
     else if (strcmp(op, "threads") is 0) { op_threads(w, n); }
     else { bug("unknown op"); }
